@@ -138,6 +138,45 @@ def gen_ws(rng):
     return ws
 
 
+SUBDIRS = ["w #1", "c%41", "q?x", "\u00e9t\u00e9", "a b", "x%2Fy", "h#"]
+NAMES = {"sub1.td": ["Defs#1.td", "s 1.td", "sub1.td"], "sub2.td": ["Pct%41.td", "\u00fc2.td", "sub2.td"],
+         "other.td": ["a b.td", "\u00fc.td", "o?x.td", "other.td"]}
+
+
+def rename_ws(w, mapping, subdir):
+    """the same workspace with other file names (on disk, in the include statements, in the steps) under a workspace
+    directory `subdir`: names and directories with URI-reserved, percent-like, blank and non-ASCII characters"""
+    def rn(p):
+        return mapping.get(p, p)
+
+    def rt(t):
+        for a, b in mapping.items():
+            t = t.replace('include "%s"' % a, 'include "%s"' % b)
+        return t
+
+    def rs(st):
+        st = dict(st)
+        for k in ("open", "change", "path", "write_disk"):
+            if k in st:
+                st[k] = rn(st[k])
+        if "text" in st:
+            st["text"] = rt(st["text"])
+        return st
+    out = {"disk": {rn(p): rt(t) for p, t in w["disk"].items()}, "files": {rn(p): rt(t) for p, t in w["files"].items()},
+           "open_steps": [rs(st) for st in w["open_steps"]], "family": w["family"], "subdir": subdir, "renamed": mapping}
+    if "rewrite" in w:
+        rw = w["rewrite"]
+        out["rewrite"] = {"path": rn(rw["path"]), "text": rt(rw["text"]), "root_text": rt(rw["root_text"])}
+        out["files_before"] = {rn(p): rt(t) for p, t in w["files_before"].items()}
+    return out
+
+
+def special_names(rng, w):
+    mapping = {k: rng.choice(v) for k, v in NAMES.items()}
+    mapping = {k: v for k, v in mapping.items() if k != v}
+    return rename_ws(w, mapping, rng.choice(SUBDIRS))
+
+
 CORPUS = [  # the workspace of defect D6 (DESIGN section C09)
     {"disk": {"sub.td": "\n\nclass Bar;"}, "open_steps": [{"open": "main.td", "text": 'include "sub.td"\nclass Foo : Bar;'}],
      "files": {"sub.td": "\n\nclass Bar;", "main.td": 'include "sub.td"\nclass Foo : Bar;'}, "family": "static"},
@@ -153,6 +192,21 @@ CORPUS = [  # the workspace of defect D6 (DESIGN section C09)
      "files_before": {"sub.td": "class Bar;\ndef q : Nope;\n", "main.td": 'include "sub.td"\nclass Foo : Bar;\n'},
      "files": {"sub.td": "// one\n// two é\nclass Bar;\ndef q : Nope;\n", "main.td": 'include "sub.td"\nclass Foo : Bar;\n'},
      "family": "disk-rewrite"},
+]
+
+
+CORPUS += [
+    # URI-reserved / percent-like / blank / non-ASCII characters in the workspace directory and in included file names
+    rename_ws(CORPUS[0], {"sub.td": "Defs#1.td"}, "c#"),
+    rename_ws(CORPUS[0], {"sub.td": "Pct%41.td"}, "q?x"),
+    rename_ws(CORPUS[0], {"sub.td": "a b.td"}, "w %41"),
+    rename_ws(CORPUS[2], {"sub.td": "\u00fc.td"}, "\u00e9t\u00e9"),
+    # an included document with unsaved text, in a directory whose name needs percent-encoding
+    {"disk": {"inc.td": "class Bar;\n"},
+     "open_steps": [{"open": "inc.td", "text": "\n\n// unsaved\nclass Bar;\ndef q : Nope;\n"},
+                    {"open": "main.td", "text": 'include "inc.td"\nclass Foo : Bar;\n'}],
+     "files": {"inc.td": "\n\n// unsaved\nclass Bar;\ndef q : Nope;\n", "main.td": 'include "inc.td"\nclass Foo : Bar;\n'},
+     "family": "static", "subdir": "dir with \u00e9"},
 ]
 
 
@@ -347,6 +401,17 @@ def model_parse(req, order, line):
     raise ValueError(k)
 
 
+def decode_log(out):
+    """raw_uris sessions: every URI the server sent is decoded by the independent decoder of lib/serverlib.py; a URI
+    that does not name a file of the workspace exactly becomes a marker equal to no workspace path"""
+    root = out.get("root", "")
+    for e in out.get("log", []):
+        if e.get("ev") == "response" and "result" in e:
+            e["result"] = sl.decode_uris(root, e["result"])
+        elif e.get("ev") == "publish":
+            e["path"] = sl.decode_uri(root, e["path"])
+
+
 def run(ctx):
     t0 = time.time()
     bindir = vlib.build_harness(True, bins=["lspdrive", "idedump"])
@@ -357,7 +422,10 @@ def run(ctx):
 
     rng = ctx.rng
     n_ws = 40 if ctx.quick else 1000
-    wss = list(CORPUS) + [gen_ws(rng) for _ in range(n_ws)]
+    wss = list(CORPUS)
+    for i in range(n_ws):
+        w = gen_ws(rng)
+        wss.append(special_names(rng, w) if i % 2 else w)
     ides = sl.idedump(bindir, [{"files": [[p, t] for p, t in sorted(w["files"].items())], "root": "main.td",
                                 "offsets": "all", "completion": False} for w in wss])
     scripts, plans = [], []
@@ -379,12 +447,13 @@ def run(ctx):
         for si, r in zip(req_idx, reqs):
             r["id"] = si + 1                     # lspdrive: id = step index + 1
         plans.append((reqs, mappers))
-        scripts.append({"files_on_disk": [[p, t] for p, t in sorted(w["disk"].items())], "mode": "burst",
+        scripts.append({"files_on_disk": [[p, t] for p, t in sorted(w["disk"].items())], "mode": "burst", "raw_uris": True,
+                        "workspace_subdir": w.get("subdir", ""),
                         "watchdog_ms": 15000, "quiet_ms": 300, "hard_ms": 90000, "steps": steps})
     idx = [i for i, s in enumerate(scripts) if s is not None]
     outs = dict(zip(idx, sl.run_sessions(bindir, [scripts[i] for i in idx])))
 
-    stats = {"workspaces": 0, "disk_rewrite_sessions": 0, "files_without_final_newline": 0, "responses": 0, "by_kind": {}, "locations_in_other_file": 0, "non_ascii_or_crlf_files": 0,
+    stats = {"workspaces": 0, "disk_rewrite_sessions": 0, "files_without_final_newline": 0, "special_name_workspaces": 0, "responses": 0, "by_kind": {}, "locations_in_other_file": 0, "non_ascii_or_crlf_files": 0,
              "publications": 0, "null_responses": 0, "ide_panics_skipped": 0, "sessions_not_idle": 0}
     oracle_fail, corr_fail, samples = [], [], []
     nontrivial = 0
@@ -404,6 +473,8 @@ def run(ctx):
         stats["files_without_final_newline"] += sum(1 for t in w["files"].values() if t and t[-1] not in "\r\n")
         stats["non_ascii_or_crlf_files"] += sum(1 for t in w["files"].values() if "\r\n" in t or any(ord(c) > 127 for c in t))
         order = sorted(w["files"])
+        decode_log(out)
+        stats["special_name_workspaces"] += 1 if (w.get("subdir") or w.get("renamed")) else 0
         resp = {e["id"]: e for e in out["log"] if e.get("ev") == "response"}
         cross = False
         for r in reqs:
@@ -481,7 +552,7 @@ def run(ctx):
             continue
         seen.add(key)
         ctx.violation("%s: the server's answer does not denote the analysed span" % json.dumps(f["request"]),
-                      {"property": "C09", "seed": ctx.seed, "disk": f["ws"]["disk"], "pre_steps": f["ws"]["pre_steps"], "family": f["ws"].get("family"),
+                      {"property": "C09", "seed": ctx.seed, "disk": f["ws"]["disk"], "pre_steps": f["ws"]["pre_steps"], "family": f["ws"].get("family"), "subdir": f["ws"].get("subdir", ""),
                        "files": f["ws"]["files"], "request": f["request"], "ide_result": f.get("ide_result"),
                        "expected": f["expected"], "observed": f["observed"],
                        "oracle": "ide-level byte range converted by the reference mapper with the text of the file the result names"})
@@ -530,8 +601,10 @@ def replay(ctx, path):
     print("request   :", json.dumps(req))
     bad = False
     if "publishDiagnostics" in req:
-        sc = {"files_on_disk": [[p, t] for p, t in sorted(w["disk"].items())], "mode": "settled", "steps": pre}
+        sc = {"files_on_disk": [[p, t] for p, t in sorted(w["disk"].items())], "mode": "settled", "steps": pre,
+              "raw_uris": True, "workspace_subdir": r.get("subdir", "")}
         out = sl.run_session(bindir, sc)
+        decode_log(out)
         p = req["publishDiagnostics"]
         e = [x for x in out["log"] if x.get("ev") == "publish" and x["path"] == p]
         m = mappers.get(p) or sl.RefMapper(w["files"].get(p, ""))
@@ -542,8 +615,9 @@ def replay(ctx, path):
         bad = exp != obs
     else:
         sc = {"files_on_disk": [[p, t] for p, t in sorted(w["disk"].items())], "mode": "settled",
-              "steps": pre + [req]}
+              "steps": pre + [req], "raw_uris": True, "workspace_subdir": r.get("subdir", "")}
         out = sl.run_session(bindir, sc)
+        decode_log(out)
         e = [x for x in out["log"] if x.get("ev") == "response" and x.get("id", 0) == len(pre) + 1]
         match = [q for q in reqs if q["step"] == req]
         if not match or not e:
